@@ -3,7 +3,7 @@
    specification; these lemmas are what makes "the set of detectors whose form contains that variable" the set it flips. *)
 From Coq Require Import List Bool NArith.
 Import ListNotations.
-Require Adj.
+Require Adj AdjGen TableAdj.
 Require Import Stab Spec SpecProofs GF2.
 
 (* for EVERY assignment, a detector's value is the XOR of the values of the measurement results it names *)
@@ -18,4 +18,10 @@ Theorem C18_adjoint_partial :
   forall n (c : list Adj.op), Forall (Adj.in_range n) c -> forall (D : Adj.det) (F : Adj.frame),
   Adj.parity_at D 0 (Adj.frun c F) = Adj.pair_upto n (Adj.back c D) F.
 Proof. exact Adj.adjoint. Qed.
-Print Assumptions C18_forms_are_affine. Print Assumptions C18_adjoint_partial.
+(* ... and for the WHOLE gate set: every unitary of the generated gate table (backward action = table action of the inverse gate,
+   which is what the translated undo routines are proved to be), single-qubit Pauli measurements and resets, any circuit, any n *)
+Theorem C18_adjoint_all_gates :
+  forall n (c : list TableAdj.tgop), Forall (TableAdj.tok n) c -> forall (D : AdjGen.det) (F : AdjGen.st),
+  AdjGen.parity_at D 0 (AdjGen.frun (map TableAdj.compile c) F) = AdjGen.pair_upto n (AdjGen.back (map TableAdj.compile c) D) F.
+Proof. exact TableAdj.adjoint_table_circuits. Qed.
+Print Assumptions C18_adjoint_all_gates. Print Assumptions C18_forms_are_affine. Print Assumptions C18_adjoint_partial.
